@@ -43,14 +43,15 @@ _LOOP = {
     "C03": (["Redress.Props.C03"], ["Redress/Audit/C03.lean"]),
     "C04": (["Redress.Props.C04", "Redress.Props.C04NR", "Redress.Props.C04Stop"],
             ["Redress/Audit/C04.lean", "Redress/Audit/C04NR.lean", "Redress/Audit/C04Stop.lean"]),
-    "C05": (["Redress.Props.C05", "Redress.Props.C05Sig"], ["Redress/Audit/C05.lean", "Redress/Audit/C05Sig.lean"]),
+    "C05": (["Redress.Props.C05", "Redress.Props.C05Sig", "Redress.Props.C05Defer"],
+            ["Redress/Audit/C05.lean", "Redress/Audit/C05Sig.lean", "Redress/Audit/C05Defer.lean"]),
     "C08": (["Redress.Props.C08"], ["Redress/Audit/C08.lean"]),
     "C09": (["Redress.Props.C09", "Redress.Props.C09Once"], ["Redress/Audit/C09.lean", "Redress/Audit/C09Once.lean"]),
     "C11": (["Redress.Props.C11", "Redress.Props.C11NR", "Redress.Props.C11H"],
             ["Redress/Audit/C11.lean", "Redress/Audit/C11NR.lean", "Redress/Audit/C11H.lean"]),
     "C12": (["Redress.Props.C12", "Redress.Props.C12Fwd", "Redress.Generated.Forwarding"],
             ["Redress/Audit/C12.lean", "Redress/Audit/C12Fwd.lean"]),
-    "C13": (["Redress.Props.C13"], ["Redress/Audit/C13.lean"]),
+    "C13": (["Redress.Props.C13", "Redress.Props.C13Poll"], ["Redress/Audit/C13.lean", "Redress/Audit/C13Poll.lean"]),
     "C14": (["Redress.Props.C14"], ["Redress/Audit/C14.lean"]),
     "C15": (["Redress.Props.C15"], ["Redress/Audit/C15.lean"]),
     "C16": (["Redress.Props.C16", "Redress.Props.C16Cut"], ["Redress/Audit/C16.lean", "Redress/Audit/C16Cut.lean"]),
